@@ -1958,6 +1958,20 @@ package badger
 //@   ensures[by-smallest-key] result <==> keycmp(s.tables[i].smallest, s.tables[j].smallest) < 0
 //@   assigns nothing
 
+// sortTables (StreamWriter.Flush): a level's tables are ordered by smallest key in the internal
+// key order (user key, then version descending), the order validate and the table search assume.
+//@ func (*levelHandler).sortTables.$1
+//@   props C26 C14
+//@   requires s != nil && 0 <= i && i < len(s.tables) && 0 <= j && j < len(s.tables) && s.tables[i] != nil && s.tables[j] != nil
+//@   domain len(s.tables[i].smallest) >= 8 && len(s.tables[j].smallest) >= 8
+//@   ensures[by-smallest-key] result <==> keycmp(s.tables[i].smallest, s.tables[j].smallest) < 0
+//@   assigns nothing
+
+//@ func (*levelHandler).sortTables
+//@   props C26 C14
+//@   light
+//@   assert[the-levels-tables-under-its-lock] before call Slice : held(s.RWMutex)
+
 //@ func (*levelHandler).deleteTables
 //@   props C12 C14
 //@   light
@@ -2049,6 +2063,7 @@ package badger
 //@   light
 //@   assert[max-version-covers-entry] before call KeyWithTs : arg0 == kv.Key && arg1 == kv.Version && sw.maxVersion >= kv.Version
 //@   assert[value-copied] before call Copy : arg0 == kv.Value
+//@   assert[entry-as-streamed] before call append : e != nil && e.Key == ret(KeyWithTs#1) && e.Value == ret(Copy#1) && e.ExpiresAt == kv.ExpiresAt && e.UserMeta == (len(kv.UserMeta) > 0 ? kv.UserMeta[0] : 0) && e.meta == (len(kv.Meta) > 0 ? kv.Meta[0] : 0)
 
 //@ func (*compactDef).allTables
 //@   props C12 C36
